@@ -381,3 +381,101 @@ Lemma p2p_supplied u acs m : da_auth acs <> [] -> parse_acs (da_auth acs) = Some
 Proof.
   intros Hs H. unfold p2p_new_given. rewrite unmarshal_field, (field_spec_supplied _ _ _ m Hs H). reflexivity.
 Qed.
+
+(* ====================================================================================== *)
+(* the mode text of an existing subscription *)
+
+Lemma sub_mode_text_empty : sub_mode_text [] = Some ModeUnset.
+Proof. reflexivity. Qed.
+
+Lemma parse_none_nonempty s : parse_acs s = None -> exists c r, s = c :: r.
+Proof. destruct s as [|c r]; [discriminate|]. intros _. exists c, r. reflexivity. Qed.
+
+Lemma sub_mode_text_rejected s : parse_acs s = None -> sub_mode_text s = None.
+Proof.
+  intros H. destruct (parse_none_nonempty s H) as [c [r ->]].
+  unfold sub_mode_text, unmarshal_err. rewrite unmarshal_nonempty, H. reflexivity.
+Qed.
+
+Lemma sub_mode_text_supplied s m : s <> [] -> parse_acs s = Some m ->
+  sub_mode_text s = Some (N.land m ModeBitmask).
+Proof.
+  intros Hs H. destruct s as [|c r]; [congruence|].
+  unfold sub_mode_text, unmarshal_err. rewrite unmarshal_nonempty, H. reflexivity.
+Qed.
+
+(* own subscription, empty text: want and given are what they were (unless the user had banned
+   itself: then, by design, the empty text means "default" - see the Example in PropC05.v) *)
+Lemma this_empty_no_change cat owner af w g : is_joiner w = true ->
+  this_user_sub_existing cat owner af w g [] = SsDone (if is_joiner g then 304 else 403) w g.
+Proof.
+  intros Hj. unfold this_user_sub_existing. rewrite sub_mode_text_empty.
+  change (ModeUnset =? ModeUnset) with true. cbn [negb].
+  rewrite Hj. cbn [negb]. rewrite !N.eqb_refl. cbn [negb orb].
+  rewrite Hj. cbn [negb]. destruct (is_joiner g); reflexivity.
+Qed.
+
+Lemma this_rejected cat owner af w g s : parse_acs s = None ->
+  this_user_sub_existing cat owner af w g s = SsErr 400.
+Proof. intros H. unfold this_user_sub_existing. rewrite (sub_mode_text_rejected s H). reflexivity. Qed.
+
+Lemma unset_not_owner : is_owner ModeUnset = false.
+Proof. reflexivity. Qed.
+
+Lemma another_empty_no_change cat hm ho to w g :
+  another_user_sub_existing cat hm ho to w g [] = (if is_sharer hm then SsDone 304 w g else SsErr 403).
+Proof.
+  unfold another_user_sub_existing. destruct (is_sharer hm); [|reflexivity].
+  cbn [negb]. change (ModeUnset =? ModeUnset) with true. rewrite unset_not_owner. reflexivity.
+Qed.
+
+Lemma another_rejected cat hm ho to w g s : parse_acs s = None ->
+  another_user_sub_existing cat hm ho to w g s = (if is_sharer hm then SsErr 400 else SsErr 403).
+Proof.
+  intros H. destruct (parse_none_nonempty s H) as [c [r ->]].
+  unfold another_user_sub_existing, unmarshal_err. destruct (is_sharer hm); [|reflexivity].
+  cbn [negb]. rewrite unmarshal_nonempty, H. reflexivity.
+Qed.
+
+Lemma offline_sub_empty cat w g : offline_set_sub cat w g [] = SsDone 304 w g.
+Proof. reflexivity. Qed.
+
+Lemma offline_sub_rejected cat w g s : parse_acs s = None -> offline_set_sub cat w g s = SsErr 500.
+Proof.
+  intros H. destruct (parse_none_nonempty s H) as [c [r ->]].
+  unfold offline_set_sub, unmarshal_err. rewrite unmarshal_nonempty, H. reflexivity.
+Qed.
+
+Lemma p2p_sanitised_not_owner x : is_owner (N.lor (N.land x ModeCP2P) ModeApprove) = false.
+Proof.
+  unfold is_owner. rewrite N.land_lor_distr_l, <- N.land_assoc.
+  change (N.land ModeCP2P ModeOwner) with 0. change (N.land ModeApprove ModeOwner) with 0.
+  rewrite N.land_0_r. reflexivity.
+Qed.
+
+Lemma p2p_sanitised_not_unset x : (N.lor (N.land x ModeCP2P) ModeApprove =? ModeUnset) = false.
+Proof.
+  apply N.eqb_neq. intros E.
+  assert (H : N.testbit (N.lor (N.land x ModeCP2P) ModeApprove) 8 = N.testbit ModeUnset 8) by (rewrite E; reflexivity).
+  rewrite N.lor_spec, N.land_spec in H. change (N.testbit ModeCP2P 8) with false in H.
+  change (N.testbit ModeApprove 8) with false in H. change (N.testbit ModeUnset 8) with true in H.
+  rewrite andb_false_r in H. discriminate H.
+Qed.
+
+Lemma admin_sharer m : is_admin m = true -> is_sharer m = true.
+Proof. intros H. unfold is_sharer. rewrite H. reflexivity. Qed.
+
+(* the peer of a p2p topic changing the given: the supplied set is masked with ModeCP2P and gets A *)
+Lemma another_p2p_supplied hm ho w g s m :
+  s <> [] -> parse_acs s = Some m -> is_admin hm = true ->
+  another_user_sub_existing SP2P hm ho false w g s =
+    (let g' := N.lor (N.land (N.land m ModeBitmask) ModeCP2P) ModeApprove in
+     if g' =? g then SsDone 304 w g else SsDone 200 w g').
+Proof.
+  intros Hs H Ha. destruct s as [|c r]; [congruence|].
+  unfold another_user_sub_existing, unmarshal_err.
+  rewrite (admin_sharer hm Ha). cbn [negb]. rewrite unmarshal_nonempty, H.
+  cbv beta iota zeta. cbn [negb].
+  rewrite p2p_sanitised_not_unset, p2p_sanitised_not_owner, Ha. cbn [negb andb].
+  cbv zeta. destruct (_ =? g); reflexivity.
+Qed.
